@@ -78,3 +78,9 @@ def _run_shard(spec):
 
 CHECK.plan = _plan
 CHECK.run_shard = _run_shard
+
+
+# repeated-stage histories (restructure_branch / the whole pipeline a second
+# time on the same object): conservation of the input blocks is decided there
+CHECK.repeat_histories = True
+CHECK.repeat_oracles = {"C05"}
